@@ -76,20 +76,23 @@ _GEOMS_FUNC = ("default", "cont1d", "discrete", "image2d", "image2dF", "step", "
 _NL_FAMILIES = ("nonlin_jac", "nonlin_grad", "nonlin_nograd", "cauchy", "slaplace", "laplace", "lmrf", "cmrf",
                 "wang", "gmrf_nonlin", "nonlin_fullcov", "nonlin_ml")
 
+def _is_big(tier, i):
+    """Cases whose parameter and/or data dimension lies above cuqi.config.MIN_DIM_SPARSE (75), where the Gaussian takes its
+    eigen-decomposition / sparse code paths."""
+    return i % (23 if tier == "quick" else 19) == 5
+
 def _pick_size(rng, tier, i):
     r = rng.random()
     if tier == "quick":
-        if i % 97 == 5:
-            return 80
         n = rng.randint(2, 12) if r < 0.85 else rng.randint(13, 30)
     else:
-        if i % 61 == 5:
-            return rng.choice([76, 90, 120])
         n = rng.randint(2, 12) if r < 0.6 else (rng.randint(13, 40) if r < 0.93 else rng.randint(41, 70))
     return n
 
 _SCALES = (-12, -10, -8, -6, -4, 0, 4, 8)
-_MODELS = ("matrix", "func", "spmatrix", "func", "matrix", "Model_jac", "Model_grad", "Model_nograd", "func", "matrix")
+_MODELS = ("matrix", "func", "spmatrix", "func", "matrix", "Model_jac", "Model_grad", "Model_nograd", "func", "matrix", "funcview")
+_VIEWS = ("identity", "subsample", "window", "reverse", "image_transpose")
+_STRUCTURED = ("blockdiag", "blockdiag", "banded", "kron")
 
 def _lg_case(rng, tier, i, specs_p, specs_e, models):
     form_p, shape_p = specs_p[i]
@@ -98,6 +101,20 @@ def _lg_case(rng, tier, i, specs_p, specs_e, models):
     geoms = _GEOMS_MATRIX if model in ("matrix", "spmatrix") else _GEOMS_FUNC
     dgeom = rng.choice(geoms) if rng.random() < 0.7 else "default"
     n = _pick_size(rng, tier, i)
+    big = _is_big(tier, i)
+    big_side = rng.choice(["n", "m", "both"]) if big else None
+    view = None
+    if model == "funcview":
+        # function-backed LinearModel whose forward (and, where possible, adjoint) returns a VIEW of its input
+        view = rng.choice(_VIEWS)
+        dgeom = "image2d" if view == "image_transpose" else rng.choice(["default", "cont1d", "discrete"])
+        big = False
+    if big:
+        if model == "Model_nograd":
+            model = "Model_grad"                         # finite-difference gradients in ~100 dimensions are too slow
+        if dgeom in ("image2d", "image2dF"):
+            dgeom = "default"
+        n = rng.randint(8, 30) if big_side == "m" else rng.randint(76, 120 if big_side == "n" else 100)
     if dgeom in ("image2d", "image2dF"):
         h, w = rng.randint(2, 4), rng.randint(2, 4)
         n = h * w
@@ -105,7 +122,7 @@ def _lg_case(rng, tier, i, specs_p, specs_e, models):
         h = w = 0
     if model == "Model_jac" and dgeom == "image2dF":
         model = "Model_grad"        # a flat Jacobian cannot express an image-shaped gradient in F order
-    if model.startswith("Model") and n > 14 and not h:
+    if model.startswith("Model") and n > 14 and not h and not big:
         n = rng.randint(2, 12)                       # optimisation route: keep the search cheap
     cls = rng.choice(["over", "over", "square", "under"])
     m = n if cls == "square" else (n + rng.randint(1, max(2, n // 2 + 1)) if cls == "over" else max(1, n - rng.randint(1, max(1, n // 2))))
@@ -115,10 +132,30 @@ def _lg_case(rng, tier, i, specs_p, specs_e, models):
         rgeom = "cont1d" if rr < 0.15 else ("image2d" if rr < 0.3 else "default")
     elif rng.random() < 0.2:
         rgeom = "cont1d"
+    if big:
+        if rgeom == "image2d":
+            rgeom = "default"
+        if big_side == "m":
+            m = rng.randint(76, 120)
+        elif big_side == "both":
+            m = n + rng.randint(0, 20)
     rh = rw = 0
     if rgeom == "image2d":
         rh, rw = rng.randint(1, 4), rng.randint(2, 4)
         m = rh * rw
+    if view is not None:
+        rgeom = "cont1d" if rng.random() < 0.3 else "default"
+        rh = rw = 0
+        if view in ("identity", "reverse"):
+            m = n
+        elif view == "subsample":
+            m = (n + 1) // 2
+        elif view == "window":
+            m = max(1, n - rng.randint(1, max(1, n // 2)))
+            view = "window%d" % rng.randint(0, n - m)            # offset of the window
+        else:                                                    # X.T[:-1, :] : (h, w) image -> (w-1, h) image
+            rgeom, rh, rw = "image2d", w - 1, h
+            m = rh * rw
     nf = n
     if dgeom == "step":
         nf = n * rng.randint(1, 3) + rng.randint(0, 2)
@@ -132,15 +169,27 @@ def _lg_case(rng, tier, i, specs_p, specs_e, models):
         shape_p = "full"
     if shape_e == "sparse" and form_e != "cov" and rng.random() < 0.7:
         shape_e = "full"
-    if n > 75 and rng.random() < 0.7:
-        form_p = form_e = "cov"
+    if big:
+        # structured dense matrices (independent groups, bands, separable) in every parameterisation on the large side(s)
+        if big_side in ("n", "both") and rng.random() < 0.8:
+            shape_p = rng.choice(_STRUCTURED)
+            if rng.random() < 0.35: form_p = "cov"
+        if big_side in ("m", "both") and rng.random() < 0.8:
+            shape_e = rng.choice(_STRUCTURED)
+            if rng.random() < 0.35: form_e = "cov"
+    # above MIN_DIM_SPARSE compute_cov() of a Gaussian with a sparse-stored (scalar/vector/diagonal) non-cov matrix returns a
+    # numpy.matrix and the closed form refuses: keep some, thin the rest
+    if n > 75 and shape_p in ("scalar", "vector", "diagmat", "sparse") and rng.random() < 0.7:
+        form_p = "cov"
+    if m > 75 and shape_e in ("scalar", "vector", "diagmat", "sparse") and rng.random() < 0.7:
+        form_e = "cov"
     prior = {"type": "gaussian", "form": form_p, "shape": shape_p, "scale": rng.choice([0.3, 1.0, 3.0])}
     if model in ("matrix", "func") and dgeom in ("default", "cont1d") and i % 9 == 4 and n >= 3:
         prior = {"type": "gmrf", "order": rng.choice([1, 2]), "delta": rng.choice([0.5, 3.0, 20.0])}
     tp = None
     if i % 25 == 11:
         # the library's own Deconvolution1D test problem (convolution operator backed by functions, or the legacy matrix)
-        model, dgeom, rgeom, h, w, rh, rw = "deconv1d", "cont1d", "cont1d", 0, 0, 0, 0
+        model, dgeom, rgeom, h, w, rh, rw, view = "deconv1d", "cont1d", "cont1d", 0, 0, 0, 0, None
         n = m = nf = rng.randint(8, 28 if tier == "quick" else 48)
         legacy = rng.random() < 0.25
         tp = {"psf": "Gauss" if legacy else rng.choice(["Gauss", "Moffat", "Defocus"]),
@@ -149,7 +198,7 @@ def _lg_case(rng, tier, i, specs_p, specs_e, models):
               "noise_std": rng.choice([0.01, 0.05, 0.2])}
         form_e, shape_e = "cov", "scalar"
         prior = {"type": "gaussian", "form": form_p, "shape": shape_p, "scale": rng.choice([0.3, 1.0, 3.0])}
-    case = {"kind": "lg", "i": i, "n": n, "m": m, "nf": nf, "h": h, "w": w, "rh": rh, "rw": rw, "tp": tp,
+    case = {"kind": "lg", "i": i, "n": n, "m": m, "nf": nf, "h": h, "w": w, "rh": rh, "rw": rw, "tp": tp, "view": view,
             "model": model, "dgeom": dgeom, "rgeom": rgeom, "prior": prior,
             "noise": {"form": form_e, "shape": shape_e, "scale": rng.choice([0.01, 0.05, 0.3, 1.0])},
             "mean": rng.choice(["vector"] * 8 + ["zero", "zero", "scalar", "scalar0"]),
@@ -171,6 +220,8 @@ def _lg_case(rng, tier, i, specs_p, specs_e, models):
     else:
         kx = rng.choice(_SCALES)
         ke = kx if rng.random() < 0.4 else rng.choice(_SCALES)
+    if view is not None:
+        ke = kx                                   # a view of the input cannot be rescaled
     if tp is not None:
         ke = kx                                   # the test problem's operator cannot be rescaled
         tp["noise_std"] = tp["noise_std"] * 10.0 ** (ke / 2)
@@ -205,7 +256,7 @@ def cases(tier, seed):
     for i in range(n_nl):
         fam = _NL_FAMILIES[i % len(_NL_FAMILIES)]
         n = 2 if fam == "wang" else rng.randint(3 if fam == "gmrf_nonlin" else 2, 10 if tier == "quick" else 14)
-        over = fam in ("nonlin_ml",) or rng.random() < 0.6
+        over = fam in ("nonlin_ml", "cauchy", "cmrf") or rng.random() < 0.6      # cauchy/cmrf: over-determined, so that unimodality can be guaranteed
         m = 1 if fam == "wang" else (n + rng.randint(1, n + 2) if over else max(1, n - rng.randint(0, n // 2)))
         out.append({"kind": "nl", "i": i, "family": fam, "n": n, "m": m,
                     "fun": rng.choice(["tanh", "cubic"]), "x0": rng.choice(["default", "default", "random", "cuqiarray"]),
@@ -226,7 +277,7 @@ def _cfg_lg(case):
             "prior_type": p["type"], "prior_form": p.get("form", "gmrf"), "prior_shape": p.get("shape", "gmrf"),
             "noise_form": case["noise"]["form"], "noise_shape": case["noise"]["shape"],
             "mean": case["mean"], "compute_cov": case["compute_cov"], "respec": case["respec"],
-            "kx": case.get("kx", 0), "ke": case.get("ke", 0),
+            "kx": case.get("kx", 0), "ke": case.get("ke", 0), "view": (case.get("view") or "none").rstrip("0123456789"),
             "geom_identity": case["dgeom"] in ("default", "cont1d", "discrete", "image2d", "image2dF")
                              or (case["dgeom"] == "step" and case["nf"] == case["n"])}
 
@@ -294,6 +345,28 @@ def _safe_logd(dens, x):
     except REFUSALS:
         return None
 
+def _is_local_max_of(F, xh, x_better, gain, tol):
+    """True when xh is a stationary point of F up to what `tol` allows: central-difference gradient g and Hessian H of the
+    independent density; if H is negative definite the Newton decrement 0.5 g^T (-H)^-1 g must be below tol (xh is within
+    tol of the top of its own basin); otherwise (saddle) the first-order gain g.(x_better-xh) must be a negligible part of
+    the observed gain."""
+    n = len(xh)
+    h = 1e-4 * max(1.0, float(np.max(np.abs(xh))))
+    E = np.eye(n) * h
+    g = np.array([(F(xh + E[i]) - F(xh - E[i])) / (2 * h) for i in range(n)])
+    H = np.zeros((n, n)); f0 = F(xh)
+    for i in range(n):
+        H[i, i] = (F(xh + E[i]) - 2 * f0 + F(xh - E[i])) / h ** 2
+        for j in range(i):
+            H[i, j] = H[j, i] = (F(xh + E[i] + E[j]) - F(xh + E[i] - E[j]) - F(xh - E[i] + E[j]) + F(xh - E[i] - E[j])) / (4 * h * h)
+    if not (np.all(np.isfinite(g)) and np.all(np.isfinite(H))):
+        return False
+    w = np.linalg.eigvalsh(H)
+    if w[-1] < 0:
+        dec = 0.5 * float(g @ np.linalg.solve(-H, g))
+        return bool(dec <= tol)
+    return bool(abs(float(g @ (x_better - xh))) <= 0.01 * gain)
+
 def probe_estimate(ctx, cfg, dens, xh, x_start, rs, f_ref=None, smooth=True, label="MAP", tol_floor=0.0, metric=None, solver_gtol=None):
     """Neighbourhood + gradient oracle for one returned estimate.  Returns a small dict of facts.
     `metric` = reference Hessian of the (quadratic) log-density when the harness knows it: neighbours are then
@@ -323,7 +396,7 @@ def probe_estimate(ctx, cfg, dens, xh, x_start, rs, f_ref=None, smooth=True, lab
         for _ in range(48):
             u = rs.standard_normal(n); u /= max(np.linalg.norm(u), 1e-300)
             cands.append(("random_sd", xh + Wm @ u * 10 ** rs.uniform(-2, 0.5)))
-        if n <= 40:
+        if n <= 130:
             # central differences of the library's own logd along the whitened axes -> its Newton step
             hh = 0.5
             gw = np.zeros(n); ok = True
@@ -393,6 +466,12 @@ def probe_estimate(ctx, cfg, dens, xh, x_start, rs, f_ref=None, smooth=True, lab
     best = max(best, 0.0)
     facts = {"probed": True, "gain": best, "tol": tol, "climb": climb}
     c2 = {**cfg, "target": label, "smooth": smooth}
+    if best > tol and smooth and Wm is None and f_ref is not None and n <= 16 and _is_local_max_of(f_ref, xh, best_x, best, tol):
+        # the estimate is (within tolerance) a stationary point of the specified density itself, yet a better point exists at a
+        # finite distance: the posterior has several stationary points, i.e. it is not unimodal - outside the property's quantifier
+        ctx.count("multimodal_posterior_not_judged")
+        facts["multimodal"] = True
+        best = 0.0
     if best > tol:
         # "stall": the solver climbed and stopped short of the top; "gross": the neighbourhood offers more than the whole climb
         c2 = {**c2, "severity": "gross" if best > GROSS_RATIO * max(1.0, climb) else "stall"}
@@ -521,6 +600,10 @@ def build_lg(case, rs):
                             domain_geometry=dgeom if not isinstance(dgeom, int) else None)
     elif mk == "func":
         model = LinearModel(fwd, adj, range_geometry=rgeom, domain_geometry=dgeom)
+    elif mk == "funcview":
+        vf, va = _view_functions(case)
+        model = LinearModel(vf, va, range_geometry=rgeom, domain_geometry=dgeom)
+        A_fun = None
     elif mk == "Model_jac":
         model = Model(fwd, rgeom, dgeom, jacobian=lambda x: A_fun)
     elif mk == "Model_grad":
@@ -576,6 +659,30 @@ def _mean_factor(case, rs):
     kx = case.get("kx", 0)
     return 10.0 ** (kx / 2) if (kx != 0 and rs.uniform() < 0.5) else 1.0
 
+def _view_functions(case):
+    """forward/adjoint pairs that return VIEWS of their argument wherever numpy allows it (no arithmetic, no copy)."""
+    v, n, m = case["view"], case["n"], case["m"]
+    if v == "identity":
+        return (lambda x: x), (lambda y: y)
+    if v == "reverse":
+        return (lambda x: x[::-1]), (lambda y: y[::-1])
+    if v == "subsample":
+        def adj(y):
+            z = np.zeros(n); z[::2] = y
+            return z
+        return (lambda x: x[::2]), adj
+    if v.startswith("window"):
+        a = int(v[6:])
+        def adj(y):
+            z = np.zeros(n); z[a:a + m] = y
+            return z
+        return (lambda x: x[a:a + m]), adj
+    h, w = case["h"], case["w"]                                    # image_transpose: X (h, w) -> X.T[:-1, :]
+    def adj(Y):
+        Z = np.zeros((h, w)); Z[:, :-1] = np.asarray(Y).T
+        return Z
+    return (lambda X: X.T[:-1, :]), adj
+
 def _prior_mean(case, rs, n):
     mean_kind = case["mean"]
     fm = _mean_factor(case, rs)
@@ -606,6 +713,24 @@ def _build_deconv(case, rs, b):
     b.data_override = _vec(TP.data).copy()
     b.make_BP = lambda data: TP
     return b
+
+def _inputs_unchanged(ctx, cfg, BP, call, data0, mu, x0_passed, x0_orig):
+    """The arrays the caller handed in (data, prior mean, initial guess) are the caller's: a call must not write through them."""
+    ctx.count("inputs_unchanged_checked")
+    bad = []
+    try:
+        if not np.array_equal(_vec(BP.data), data0):
+            bad.append("data")
+        pm = _vec(BP.prior.mean)
+        if pm.shape == mu.shape and not np.array_equal(pm, mu):
+            bad.append("prior mean")
+    except Exception:   # attribute access refused: nothing to compare
+        pass
+    if x0_passed is not None and not np.array_equal(np.asarray(x0_passed, dtype=float), x0_orig):
+        bad.append("x0")
+    if bad:
+        ctx.violation("argument_modified", {**cfg, "call": call, "what": "+".join(bad)},
+                      f"{call} modified the caller's {', '.join(bad)} in place")
 
 def observe_matrix(model, n, m, rs):
     """Parameter-space matrix of the model as observed through forward(e_i); None if not linear."""
@@ -700,6 +825,7 @@ def run_lg(case, ctx):
             BP.prior = Gaussian(mu.copy(), cov=val, name="x")
         ctx.count("respecified_problems")
     model = BP.model
+    data0 = np.array(data, dtype=float, copy=True)
     A = observe_matrix(model, n, m, rs)
     if A is None:
         ctx.inconclusive("model is not linear in parameter space: closed form not applicable")
@@ -747,8 +873,10 @@ def run_lg(case, ctx):
         return True
     x0 = None if case["x0"] == "default" else (near(mean_ref, P_ref) if case["x0"] == "near" else rs.standard_normal(n))
     x_start = x_start_default if x0 is None else x0
+    x0arg = None if x0 is None else x0.copy()
     with SolverRecorder() as rec:
-        kind_, xm = _call(BP.MAP, disp=case["disp"], x0=None if x0 is None else x0.copy())
+        kind_, xm = _call(BP.MAP, disp=case["disp"], x0=x0arg)
+    _inputs_unchanged(ctx, cfg, BP, "MAP", data0, mu, x0arg, x0)
     route = "optim" if rec.calls else "direct"
     cfgm = {**cfg, "route": route}
     if rec.calls:
@@ -812,8 +940,10 @@ def run_lg(case, ctx):
     if ml_ref is not None and case["i"] % 2 == 0:
         x0l = None if case["x0"] == "default" else (near(ml_ref, N_ml) if case["x0"] == "near" else rs.standard_normal(n))
         xs = np.ones(n) if x0l is None else x0l
+        x0arg = None if x0l is None else x0l.copy()
         with SolverRecorder() as rec:
-            kind_, xl = _call(BP.ML, disp=case["disp"], x0=None if x0l is None else x0l.copy())
+            kind_, xl = _call(BP.ML, disp=case["disp"], x0=x0arg)
+        _inputs_unchanged(ctx, cfg, BP, "ML", data0, mu, x0arg, x0l)
         cfgl = {**cfg, "route": "optim" if rec.calls else "direct"}
         if rec.calls:
             cfgl.update({"solver_success": rec.calls[-1]["success"], "sd_class": sd_class})
@@ -910,6 +1040,7 @@ def run_lg(case, ctx):
             else:
                 kind_, smp = _call(BP.sample_posterior, Ns)
     took_direct = log.evaluations.get("direct_route", 0) > 0
+    _inputs_unchanged(ctx, cfg, BP, case["via"], data0, mu, None, None)
     cfgs = {**cfg, "route": "direct_sampler", "via": case["via"]}
     if kind_ == "refused":
         ctx.refused("sample_posterior", smp); ctx.count("sampler_refused"); ctx.nontrivial("refusal")
@@ -1006,7 +1137,10 @@ def run_nl(case, ctx):
             prior = Gaussian(mu.copy(), cov=var.copy(), name="x")
             lp = lambda x: R.logprior("gaussian_prec", x, mu, np.diag(1 / var))
         elif fam == "cauchy":
-            sc = sx * rs.uniform(0.3, 1.0, n)
+            # unimodal by construction (the property quantifies over unimodal posteriors): log-Cauchy has curvature at most
+            # +0.25/scale^2, the Gaussian log-likelihood at most -lambda_min(A^T A)/var; keep the sum strictly concave
+            lam = float(np.linalg.eigvalsh(A.T @ A)[0]) / se
+            sc = np.maximum(sx * rs.uniform(0.3, 1.0, n), np.sqrt(0.5 / lam))
             prior = Cauchy(mu.copy(), sc.copy(), name="x")
             lp = lambda x: R.logprior("cauchy", x, mu, sc)
         elif fam == "laplace":
@@ -1020,6 +1154,8 @@ def run_nl(case, ctx):
             prior = LMRF(mu.copy(), sx, geometry=n, name="x")
             lp = lambda x: R.logprior("lmrf", x, mu, sx)
         elif fam == "cmrf":
+            lam = float(np.linalg.eigvalsh(A.T @ A)[0]) / se
+            sx = float(max(sx, np.sqrt(2.0 / lam)))       # |D^T D| <= 4: curvature of the log-prior at most +1/scale^2 (see cauchy)
             prior = CMRF(mu.copy(), sx, geometry=n, name="x")
             lp = lambda x: R.logprior("cmrf", x, mu, sx)
         else:
